@@ -29,6 +29,9 @@ var (
 
 const c18Denom = "ugrain"
 
+// a licence may be paid in any coin; c18Other is one that is not the bond denom
+const c18Other = "uusdc"
+
 func c18Meta(who sdk.AccAddress) valsettypes.MsgMetadata {
 	return valsettypes.MsgMetadata{Creator: who.String(), Signers: []string{who.String()}}
 }
@@ -65,6 +68,7 @@ func c18Run(symbolicConfig bool, L int) {
 	for _, f := range []sdk.AccAddress{c18A, c18B} {
 		accs.SetAccount(ctx, accs.NewAccountWithAddress(ctx, f))
 		bank.SetBalance(f, c18Denom, sdkmath.NewIntFromBigInt(sym.BigInt("funder-balance", 100)))
+		bank.SetBalance(f, c18Other, sdkmath.NewIntFromBigInt(sym.BigInt("funder-balance-other-denom", 100)))
 	}
 	// sale configuration: each piece may or may not be present
 	if !symbolicConfig || sym.Bool("feegranter-configured") {
@@ -89,13 +93,14 @@ func c18Run(symbolicConfig bool, L int) {
 
 	clients := []sdk.AccAddress{c18C, c18D}
 	pending := map[string]sdkmath.Int{} // ghost: not-yet-activated licences
+	denomOf := map[string]string{}      // ghost: the coin each licence was paid in
 	months := map[string]uint32{}
 	activated := map[string]bool{}
-	escrow := func() sdkmath.Int { return bank.ModuleBalance(types.ModuleName, c18Denom) }
-	sumPending := func() sdkmath.Int {
+	escrow := func(d string) sdkmath.Int { return bank.ModuleBalance(types.ModuleName, d) }
+	sumPending := func(d string) sdkmath.Int {
 		t := sdkmath.ZeroInt()
 		for _, c := range clients {
-			if v, ok := pending[c.String()]; ok {
+			if v, ok := pending[c.String()]; ok && denomOf[c.String()] == d {
 				t = t.Add(v)
 			}
 		}
@@ -114,17 +119,19 @@ func c18Run(symbolicConfig bool, L int) {
 			client := clients[sym.Choice("client", 2)]
 			amt := sdkmath.NewIntFromBigInt(sym.BigInt("amount", 100))
 			m := uint32(sym.Uint64Range("months", 0, 120))
+			d := []string{c18Denom, c18Other}[sym.Choice("licence-denom", 2)]
 			hadAccount := accs.Has(client)
 			_, hadLicence := pending[client.String()]
 			cctx, commit := ctx.CacheContext()
 			_, err := srv.AddLightNodeClientLicense(cctx, &types.MsgAddLightNodeClientLicense{
-				ClientAddress: client.String(), Amount: sdk.Coin{Denom: c18Denom, Amount: amt}, VestingMonths: m, Metadata: c18Meta(creator)})
+				ClientAddress: client.String(), Amount: sdk.Coin{Denom: d, Amount: amt}, VestingMonths: m, Metadata: c18Meta(creator)})
 			if err == nil {
 				commit()
 				sym.Reach("licence-created")
 				sym.Assert(!hadAccount, "licence-only-for-address-without-account")
 				sym.Assert(!hadLicence, "licence-only-for-address-without-licence")
 				pending[client.String()] = amt
+				denomOf[client.String()] = d
 				months[client.String()] = m
 			} else {
 				sym.Reach("licence-rejected")
@@ -142,6 +149,7 @@ func c18Run(symbolicConfig bool, L int) {
 				sym.Reach("sale-created")
 				sym.Assert(!hadAccount && !hadLicence, "sale-only-for-fresh-address")
 				pending[client.String()] = amt.MulRaw(1_000_000)
+				denomOf[client.String()] = c18Denom
 				months[client.String()] = 24
 				sym.Assert(fg.HasGrant(c18G, client), "sale-sets-up-feegrant")
 			} else {
@@ -150,7 +158,7 @@ func c18Run(symbolicConfig bool, L int) {
 			}
 		case 2: // activation attempt by anyone
 			who := []sdk.AccAddress{c18C, c18D, c18A}[sym.Choice("activator", 3)]
-			balBefore := bank.Balance(who, c18Denom)
+			balBefore := map[string]sdkmath.Int{c18Denom: bank.Balance(who, c18Denom), c18Other: bank.Balance(who, c18Other)}
 			cctx, commit := ctx.CacheContext()
 			_, err := srv.RegisterLightNodeClient(cctx, &types.MsgRegisterLightNodeClient{Metadata: c18Meta(who)})
 			if err == nil {
@@ -159,13 +167,20 @@ func c18Run(symbolicConfig bool, L int) {
 				amt, had := pending[who.String()]
 				sym.Assert(had, "activation-only-with-pending-licence-of-the-caller")
 				sym.Assert(!activated[who.String()], "activation-at-most-once")
-				sym.Assert(bank.Balance(who, c18Denom).Equal(balBefore.Add(amt)), "activation-moves-exactly-licensed-amount")
+				ld := denomOf[who.String()]
+				for _, d := range []string{c18Denom, c18Other} {
+					want := balBefore[d]
+					if d == ld {
+						want = want.Add(amt)
+					}
+					sym.Assert(bank.Balance(who, d).Equal(want), "activation-moves-exactly-licensed-amount")
+				}
 				va, ok := accs.Get(who).(*vestingtypes.ContinuousVestingAccount)
 				sym.Assert(ok, "activation-makes-continuous-vesting-account")
 				if ok {
 					sym.Assert(va.StartTime == ctx.BlockTime().Unix(), "vesting-starts-at-activation")
 					sym.Assert(va.EndTime == ctx.BlockTime().AddDate(0, int(months[who.String()]), 0).Unix(), "vesting-ends-after-licence-months")
-					sym.Assert(len(va.OriginalVesting) == 1 && va.OriginalVesting[0].Amount.Equal(amt) && va.OriginalVesting[0].Denom == c18Denom, "original-vesting-is-licensed-amount")
+					sym.Assert(len(va.OriginalVesting) == 1 && va.OriginalVesting[0].Amount.Equal(amt) && va.OriginalVesting[0].Denom == ld, "original-vesting-is-licensed-amount")
 				}
 				delete(pending, who.String())
 				activated[who.String()] = true
@@ -182,7 +197,7 @@ func c18Run(symbolicConfig bool, L int) {
 				sym.Assert(activated[who.String()], "auth-only-for-activated-clients")
 			}
 		}
-		sym.Assert(escrow().Equal(sumPending()), "escrow-equals-pending-licences")
+		sym.Assert(sym.And(escrow(c18Denom).Equal(sumPending(c18Denom)), escrow(c18Other).Equal(sumPending(c18Other))), "escrow-equals-pending-licences")
 	}
 }
 
